@@ -775,6 +775,28 @@ def run(ctx, rep):
                 for t_, taken_ in _eifs(f.node, tr_):
                     if taken_ and isinstance(t_, ast.Call) and isinstance(t_.func, ast.Name) and t_.func.id == "isinstance" and isinstance(t_.args[0], ast.Name) and t_.args[0].id == a0.id and ast.unparse(t_.args[1]) == "int":
                         need = {"OverflowError"}
+            # .. or it is the parameter of a private helper whose every call site hands it a value known to be an
+            # integer (isinstance(.., Integral/int) on the path to the call)
+            if conv[0].func.id == "float" and isinstance(a0, ast.Name) and a0.id in f.params and f.name.startswith("_") and f.cls:
+                from .wave3 import _enclosing_ifs as _eifs2
+                pos = f.params.index(a0.id) - 1
+                sites = []
+                for g in ix.functions.values():
+                    if g.cls != f.cls or isinstance(g.node, ast.Lambda):
+                        continue
+                    for c_ in ast.walk(g.node):
+                        if isinstance(c_, ast.Call) and isinstance(c_.func, ast.Attribute) and c_.func.attr == f.name and len(c_.args) > pos:
+                            sites.append((g, c_))
+                def _int_guarded(g, c_):
+                    arg = c_.args[pos]
+                    if not isinstance(arg, ast.Name):
+                        return False
+                    for t_, taken_ in _eifs2(g.node, c_):
+                        if taken_ and isinstance(t_, ast.Call) and isinstance(t_.func, ast.Name) and t_.func.id == "isinstance" and isinstance(t_.args[0], ast.Name) and t_.args[0].id == arg.id and ast.unparse(t_.args[1]) in ("int", "Integral"):
+                            return True
+                    return False
+                if sites and all(_int_guarded(g, c_) for g, c_ in sites):
+                    need = {"OverflowError"}
             missing = need - covered
             loc = f"{f.path}:{tr_.lineno}"
             if missing:
